@@ -450,6 +450,83 @@ def prefix_finding(kind, cname, m0, m1):
     return None
 
 
+def predict_replay(dr, maps, kb, use, symlines, dat_override=None):
+    """What `uftrace replay` must show for directory `dr` when its map file parses to `maps` (kernel
+    base `kb`) and its .sym file to `symlines`: ("err", name) = "record missing argument info for
+    <name>" for the first payload-carrying record that is read whose function has no argument spec
+    (specs are bound by symbol NAME), or ("ok", [names of the entries shown]).
+    Mirrors task_find_sym/find_symtabs (map lookup, kernel test, relative address, symbol range) and
+    the read-ahead order of fstack (first record of every task, then the next one of the task whose
+    record was consumed)."""
+    spec_names = set()
+    for sp in (dr.argspec or "").split(";") + (dr.retspec or "").split(";"):
+        if "@" in sp:
+            spec_names.add(sp.split("@")[0])
+    syms = []
+    if use:
+        for l in symlines:
+            if chr(int(l[2])) in "?TtwPKDdvu" and int(l[1]) > 0:
+                syms.append((int(l[0]), int(l[1]), unhex(l[3]).decode("latin1")))
+
+    def name_of(addr):
+        if addr >= kb:
+            return None
+        for e in maps:
+            if int(e[0]) <= addr < int(e[1]):
+                if unhex(e[3]) != dr.modname:
+                    return None
+                rel = addr - int(e[0])
+                for a, z, n in syms:
+                    if a <= rel < a + z:
+                        return n
+                return None
+        return None
+
+    def check(rec):
+        """the read of one record: an error name or None"""
+        if rec.more and rec.typ in "EX":
+            n = name_of(rec.addr)
+            if n is None or n not in spec_names:
+                return n if n is not None else "<%x>" % rec.addr
+        return None
+    queues = [list(t.records) for t in dr.dd.tasks]
+    if dat_override is not None:
+        queues = dat_override
+    heads = []
+    for q in queues:
+        h = q.pop(0) if q else None
+        if h is not None:
+            e = check(h)
+            if e is not None:
+                return ("err", e)
+        heads.append(h)
+    shown = []
+    while any(h is not None for h in heads):
+        i = min((h.time, j) for j, h in enumerate(heads) if h is not None)[1]
+        h = heads[i]
+        if h.typ == "E":
+            n = name_of(h.addr)
+            shown.append(n if n is not None else "<%x>" % h.addr)
+        nxt = queues[i].pop(0) if queues[i] else None
+        if nxt is not None:
+            e = check(nxt)
+            if e is not None:
+                return ("err", e)
+        heads[i] = nxt
+    return ("ok", shown)
+
+
+def observed_replay(r):
+    if r["rc"] != 0:
+        m = re.search(r"record missing argument info for ?(.*)$", r["diag"])
+        return ("err", m.group(1).strip() if m else r["diag"])
+    names = []
+    for ev in D.parse_replay(r["out"]):
+        if ev[0] in ("E", "L"):
+            names.append(ev[3])
+    return ("ok", names)
+
+
 def whole_records_before(recs, k):
     """independent of the model: how many leading records are completely inside the first k bytes"""
     n, off = 0, 0
@@ -475,6 +552,8 @@ def plan(ctx, dirs):
                 if kind != "info":
                     continue
                 cmds = ["replay"]
+            elif quick and dr.name.startswith("rand"):
+                cmds = ["replay", "report", "dump"] if kind == "dat" else []
             elif quick:
                 if kind == "info":
                     cmds = ["info", "replay"] if dr.name == "args" else []
@@ -506,8 +585,8 @@ def run(ctx):
     kf = {f["id"]: f for f in C.known_findings("C12")}
 
     dirs = [dir_args(), dir_tasks(), dir_notask()]
-    if ctx.tier == "thorough":
-        dirs += [dir_random(ctx.rng, i) for i in range(6)]
+    # seed-dependent directories: random call trees with string / int / char / event payloads
+    dirs += [dir_random(ctx.rng, i) for i in range(6 if ctx.tier == "thorough" else 1)]
     jobs = plan(ctx, dirs)
     runner = Runner(ctx, uftrace)
     try:
@@ -537,6 +616,15 @@ def check(ctx, runner, dirs, jobs, kf, t_build):
     for (key, fixed), line in zip(keys, mout):
         dr, fname, k = cuts[key]
         model[(key, fixed)] = parse_model(dr.kind(fname), C.norm(line))
+
+    # the model's parse of the complete map and sym files (for the name oracle)
+    fq = []
+    for dr in dirs:
+        fq.append(model_query(dr, dr.mapname, "map", 1, dr.files[dr.mapname]))
+        fq.append(model_query(dr, dr.symname, "sym", 1, dr.files[dr.symname]))
+    fo = C.run_model("C12", fq)
+    for i, dr in enumerate(dirs):
+        dr.full_models = {"map": parse_model("map", C.norm(fo[2 * i])), "sym": parse_model("sym", C.norm(fo[2 * i + 1]))}
 
     # raw dump of a complete short string (F14) does not depend on which other file is cut
     for dr in dirs:
@@ -667,6 +755,14 @@ def check(ctx, runner, dirs, jobs, kf, t_build):
                 dis = "model: open_data_file fails with %s, implementation: %r" % (m1["open"], r["diag"])
             if not want and ("Invalid argument" in r["diag"] or "No data available" in r["diag"]):
                 dis = "model: task.txt accepted, implementation: %r" % r["diag"]
+        if kind in ("map", "sym") and c == "replay" and not r["san"] and m1["status"] == "ok":
+            full = dr.full_models
+            mm = m1 if kind == "map" else full["map"]
+            ss = m1 if kind == "sym" else full["sym"]
+            want = predict_replay(dr, mm["maps"], mm["kb"], ss["use"], ss["lines"])
+            got = observed_replay(r)
+            if want != got:
+                dis = "replay: the model's parse of the %s file predicts %r, the implementation shows %r" % (kind, want, got)
         if not bad and not dis:
             continue
         fid = prefix_finding(kind, c, m0, m1) if kind != "info" or m0["status"] == "oob" else None
@@ -698,6 +794,12 @@ def check(ctx, runner, dirs, jobs, kf, t_build):
         want = {"exe image": unhex(kv.get("exename:", "-")).decode("latin1"),
                 "cmdline": unhex(kv.get("cmdline:", "-")).decode("latin1"),
                 "number of tasks": kv.get("nr_tid")}
+        if "" in r["out"].rstrip("\n").split("\n"):
+            stats["disagree"] += 1
+            report("correspondence", "model-code-disagreement",
+                   {"kind": "model-code-disagreement", "dir": dr.name,
+                    "what": "`uftrace info` prints an empty line: a value kept its newline (model: copy_info_str strips it)"},
+                   nfi=True)
         for k2, v in want.items():
             mm = re.search(r"^# %s\s*: (.*)$" % re.escape(k2), r["out"], re.M)
             if not mm or mm.group(1).strip() != str(v):
@@ -711,7 +813,8 @@ def check(ctx, runner, dirs, jobs, kf, t_build):
         "distinct_nontrivial": len(distinct),
         "rule": "exhaustive: every truncation length 0..size of every file (and the removal of each file) of "
                 "%d synthesized directories x the commands listed in `plan` (quick: all 6 on the args directory's "
-                "dat/task/map/sym, info+replay on info cuts; thorough: all 6 everywhere + 6 random directories); "
+                "dat/task/map/sym, info+replay on info cuts, replay/report/dump on the .dat files of one random "
+                "directory drawn from the seed; thorough: all 6 commands everywhere + 6 random directories); "
                 "distinct = distinct (dir, file, cmd, exit, sanitizer, stdout hash, diagnostic, model result)" % len(dirs),
         "cut_points": stats["cuts"], "monitor_failures_on_impl": stats["monitor_fail"],
         "model_code_disagreements": stats["disagree"], "attributed": stats["by_finding"],
